@@ -85,6 +85,9 @@ func (l *Lock) updateLockedState(w http.ResponseWriter, r *http.Request, wasCorr
 			lu.PutAttemptCount(attempts)
 		} else {
 			lu.PutAttemptCount(1)
+			if l.Modules.LockAfter <= 1 {
+				lu.PutLocked(time.Now().UTC().Add(l.Modules.LockDuration))
+			}
 		}
 	}
 	lu.PutLastAttempt(time.Now().UTC())
